@@ -100,7 +100,7 @@ PROPS = {
         technique="property-based aliasing check: generated values of every core type pushed through each hand-over point, reflect walker scribbles over every reachable reference, later reads compared with a pristine snapshot, address sets of two holders must be disjoint",
         level_text="For dutydb, parsigdb, aggsigdb (both), sigagg, and the subscriber fan-out of parsigex (peer message over the in-memory libp2p stand-in) and of the validator API component: store -> mutate input -> read; read -> mutate result -> read again; two readers / two subscribers -> disjoint reachable addresses, "
                    "for generated values of every core data type and fork version.",
-        level_note="Single-threaded orders (races are for the thorough -race tier); unexported fields and time.Time are treated as unreachable/immutable; fetcher / scheduler / validatorapi fan-out are not yet wired.",
+        level_note="TestC18Isolation runs single-threaded orders; TestC18Threads runs readers / writers / subscribers on real goroutines (race detector in the thorough tier, schedule not controlled); unexported fields and time.Time are treated as unreachable/immutable.",
         runs={
             "quick": [dict(test="TestC18Isolation", checks=900, shards=4), dict(test="TestC18Threads", checks=400, shrinktime="15s")],
             "thorough": [dict(test="TestC18Isolation", checks=12000, shards=13, timeout=3000), dict(test="TestC18Threads", checks=1000, shards=3, race=True, timeout=3000)],
@@ -167,7 +167,8 @@ PROPS = {
         technique="property-based whole-cluster simulation (rapid + synctest): real node stacks wired by core.Wire over an in-memory network, generated schedules / crashes / equivocating partial signatures; history invariant over everything handed to the broadcaster and the aggregate store, verified with an independent signing table",
         level_text="n production node stacks (consensus component, dutydb, validatorapi, parsigdb, parsigex, sigagg, aggsigdb, deadliners) on virtual time; the harness owns every frame and plays the validator clients. "
                    "Every object any node hands to Broadcaster.Broadcast or AggSigDB.Store must verify under the group key for the spec signing root of its own content, and all objects of one (duty, validator) must share one signing root.",
-        level_note="Scheduler and fetcher are stubs, Byzantine behaviour is partial-signature only (consensus adversaries: C02), proposer duty not exercised; lock-level races are not controlled; signing roots come from specsign.",
+        level_note="The scheduler is a stub; the fetcher is the production one in half of the cases (per-node view of the beacon node), a stub otherwise; duties: attester, sync message, exit, and (with the production fetcher) randao + proposer end to end; aggregator and sync-contribution flows are not exercised. "
+                   "Byzantine behaviour is partial-signature only (consensus adversaries: C02); lock-level races are not controlled; signing roots come from specsign.",
         runs={
             "quick": [dict(test="TestC01Cluster", checks=90, shards=8, shrinktime="15s")],
             "thorough": [dict(test="TestC01Cluster", checks=1500, shards=16, timeout=3400, env={"VERIF_MAXEV": 400})],
@@ -205,7 +206,7 @@ PROPS = {
         technique="model-based property testing on virtual time (rapid + synctest): production scheduler with production clock, delay function and duties cache over a scripted beacon node; history invariant over all subscriber calls against a reference model of the assignments",
         level_text="Generated assignments, validator life cycles, start slots, per-endpoint failure scripts and slow beacon calls (missed ticks); every trigger is checked (never twice, never early, only the beacon node's assignment to an active cluster validator) "
                    "and every ticked slot that began after its epoch was resolved must have triggered exactly the model's definition sets.",
-        level_note="An epoch counts as resolved when its last resolution call first succeeds (observed on the fake beacon node); feature-gated paths (reorg handling, fetch-on-block) keep their default (off); delays are allowed by the property, only duplication / alteration / loss after resolution are violations.",
+        level_note="An epoch counts as resolved when its last resolution call first succeeds (observed on the fake beacon node); feature-gated paths (reorg handling, fetch-on-block, duties cache disabled) run in separate jobs with the safety clauses only; delays are allowed by the property, only duplication / alteration / loss after resolution are violations.",
         runs={
             "quick": [dict(test="TestC15Scheduler", checks=800, shards=4, shrinktime="15s"),
                       dict(test="TestC15Scheduler", checks=500, shrinktime="15s", env={"VERIF_C15_FEATURES": "fetch_att_on_block"}),
@@ -231,7 +232,7 @@ PROPS = {
         technique="property-based testing of the real create-cluster CLI with independent (spec-derived) verification of every artifact, plus structural mutation of valid locks: every JSON leaf x alteration must break decoding, hash or signature verification (exhaustive grid in the thorough tier)",
         level_text="Generated create-cluster configurations through cmd.New(): lock hashes and signatures, key-share / public-share correspondence, deposit data and builder registrations verified with harness-side spec signing, share recombination, combine output. "
                    "Tamper evidence: every leaf and array of valid locks of versions v1.0..v1.11 under representative alterations must be detected; decode / re-encode must preserve all hashes.",
-        level_note="Fully verifiable (hash + signature) bases exist for v1.1, v1.2, v1.7 (committed examples) and v1.10, v1.11 (cluster.NewForT); the other versions are covered by the per-version golden locks with hash verification only. "
+        level_note="Fully verifiable (hash + signature) bases: harness-assembled locks of every version v1.0..v1.11, the committed examples v1.1, v1.2, v1.7 and cluster.NewForT v1.10, v1.11; the per-version golden locks give hash verification only. "
                    "Genesis fork versions of the test networks are restated in the harness; herumi BLS is trusted.",
         runs={
             "quick": [dict(test="TestC12Create", checks=30, shards=4, shrinktime="15s"), dict(test="TestC12Tamper", checks=4000), dict(test="TestC12ReEncode", mode="plain")],
